@@ -68,3 +68,21 @@ M("c03_accuracy_default_period", AA, "            new_sample_thresh=new_sample_t
 M("c03_accuracy_inverted_indicator", AA, "new_value = int(y_true == y_pred)", "new_value = int(y_true != y_pred)", ["C03", "C16"])
 M("c03_conservative_bound_swapped", AD, "        if not self.conservative_bound:\n", "        if self.conservative_bound and self._window_size > 64 or not self.conservative_bound:\n", ["C03"])
 M("c03_variance_first_sample", AD, "        if self._window_size > 1:\n            self._curr_variance += (", "        if self._window_size > 2:\n            self._curr_variance += (", ["C03"])
+
+KP = "menelaus/partitioners/KDQTreePartitioner.py"
+M("c08_fill_boundary_lt", KP, "        upper_data = data[data[:, axis] > midpoint_at_axis]\n        lower_data = data[data[:, axis] <= midpoint_at_axis]\n        total_points = upper_data.shape[0] + lower_data.shape[0]\n        # update by ID",
+  "        upper_data = data[data[:, axis] >= midpoint_at_axis]\n        lower_data = data[data[:, axis] < midpoint_at_axis]\n        total_points = upper_data.shape[0] + lower_data.shape[0]\n        # update by ID", ["C08"])
+M("c08_fill_children_swapped", KP, "        KDQTreeNode.fill(upper_data, node.right, count_ubound, tree_id, reset)\n        KDQTreeNode.fill(lower_data, node.left, count_ubound, tree_id, reset)",
+  "        KDQTreeNode.fill(upper_data, node.left, count_ubound, tree_id, reset)\n        KDQTreeNode.fill(lower_data, node.right, count_ubound, tree_id, reset)", ["C08"])
+M("c08_fill_leaf_ignores_reset", KP, "            if tree_id not in node.num_samples_in_compared_subtrees.keys() or reset:\n                node.num_samples_in_compared_subtrees[tree_id] = n\n",
+  "            if tree_id not in node.num_samples_in_compared_subtrees.keys():\n                node.num_samples_in_compared_subtrees[tree_id] = n\n", ["C08"])
+M("c08_distn_no_correction", KP, "        hist = np.array(counts) + 0.5\n        hist = hist / (total + len(hist) / 2)", "        hist = np.array(counts) + 0.5\n        hist = hist / (total + len(hist))", ["C08"])
+M("c08_kss_uncorrected", KP, "np.array([df[\"node_count_test\"], test_max - df[\"node_count_test\"]])\n        )", "np.array([df[\"node_count_test\"] + 0.5, test_max - df[\"node_count_test\"]])\n        )", ["C08"])
+M("c08_axis_not_cycling", KP, "        axis = depth % m\n", "        axis = depth % m if depth < 6 else 0\n", ["C08"])
+M("c08_midpoint_mean", KP, "midpoint_at_axis = min_value_at_axis + (np.ptp(data[:, axis]) / 2)", "midpoint_at_axis = min_value_at_axis + (np.ptp(data[:, axis]) / 2) * (1 if n < 40 else 0.999)", ["C08"])
+M("c08_split_small_nodes", KP, "            n <= count_ubound\n", "            n < count_ubound\n", ["C08"])
+M("c08_kl_reversed", KP, "distance = scipy.stats.entropy(hist1, hist2)", "distance = scipy.stats.entropy(hist2, hist1)", ["C08", "C09"])
+M("c08_count_diff_sign", KP, "                        node.num_samples_in_compared_subtrees[tree_id2]\n                        - node.num_samples_in_compared_subtrees[tree_id1]", "                        node.num_samples_in_compared_subtrees[tree_id1]\n                        - node.num_samples_in_compared_subtrees[tree_id2]", ["C08"])
+M("c08_one_child_again", KP, "            or not np.any(data[:, axis] > midpoint_at_axis)\n", "", ["C08"])
+M("c08_internal_count_on_empty_fill", KP, "        if tree_id not in node.num_samples_in_compared_subtrees.keys() or reset:\n            node.num_samples_in_compared_subtrees[tree_id] = total_points\n        else:",
+  "        if tree_id not in node.num_samples_in_compared_subtrees.keys() or (reset and total_points > 0):\n            node.num_samples_in_compared_subtrees[tree_id] = total_points\n        else:", ["C08"])
